@@ -51,6 +51,11 @@ CLAIMED["C07"] = dict(cat="proof", sec="DESIGN 4/C07",
     note="A5 Lightning call protocol (external, not verified), A3 nn.Module parameter registration model (attribute assignment / register_parameter / ModuleList), A2, A9. Nothing inside Lightning / torch.optim is decided.",
     tech="contract-based deductive verification: inductive loop invariant over a symbolic family of conditions + postconditions, z3")
 
+CLAIMED["C17"] = dict(cat="other", sec="DESIGN 4/C17",
+    text="D(t=T0) against the oracles of the primitive table: membership (every primitive, one and two parameter variables), volume, bounding box, sampling and boundary (interval, circle, sphere), frame (original unchanged), free variables before and after; Boolean operations / product / translate / rotate / boundary over abstract operands whose own __call__ is the contract 'denotes the operand at the values': commutation with partial evaluation, flags, volume rules, necessary_variables = free variables.",
+    note="A1, A2, A3, A8, A9; operand contract for abstract domains. Bounded: parameter variables schematic ('t' or 't','s'). Known findings F21, F04b (open).",
+    tech="contract-based deductive verification (schematic in the parameter variables): VCs from the real AST, z3")
+
 NA = {
  "C19": "restore fidelity is a property of Lightning's checkpoint / torch.save machinery, the file system and process restarts; no contract on a repo function expresses it (DESIGN 4/C19)",
  "C20": "shift-equivariance / resolution consistency are DFT theorems about torch.fft in complex floating point; a contract on _FourierLayer.forward could only restate them as axioms of an external library (DESIGN 4/C20)",
